@@ -11,10 +11,19 @@
 //!                           object stream.
 //!   `lex <hex>`             `PdfObject::parse` on arbitrary bytes, then the next two tokens
 //!   `tok <hex>`             the token stream of `Lexer::next_token` (≤ 64 tokens)
+//!   `img d|o <w> <hex>`     a raw DeviceGray image `w` x `len/w` with these samples is added to a
+//!                           page (`Image::from_gray_data`, stored unfiltered: `compress_streams =
+//!                           false`), the document is written, the image XObject's stream object is
+//!                           cut out of the file (by its own /Length), `body ++ "\nendobj\n"` goes
+//!                           through the real `PdfObject::parse`, and the whole file through the real
+//!                           `PdfReader` (`raw_data` of the image stream)
+//!   `stm <hex>`             `PdfObject::parse` on arbitrary bytes shaped like a stream object
 //! Answers
 //!   obj: `<hex of the value's bytes>|<canonical parsed value or err:class>|<next two tokens>`
 //!   lex: `<canonical parsed value or err:class>|<next two tokens>`
 //!   tok: `<token>,<token>,…`
+//!   img: `<hex of the stream object's bytes>|<stm answer for them>|reader:<hex raw_data>`
+//!   stm: `S <dict canon> <hex data>|<next two tokens>` / `O <canon>|<tokens>` / `err:class|-`
 #[path = "../b0930_common.rs"]
 mod common;
 use common::*;
@@ -166,6 +175,92 @@ fn value_bytes_objstm(tree: &T) -> Result<Vec<u8>, String> {
     Err("annot-not-found-in-object-streams".into())
 }
 
+/// `PdfObject::parse` with streams shown in full
+fn parse_stream_and_next(bytes: &[u8]) -> String {
+    use oxidize_pdf::parser::objects::PdfObject;
+    let mut lexer = Lexer::new(Cursor::new(bytes.to_vec()));
+    match PdfObject::parse(&mut lexer) {
+        Ok(PdfObject::Stream(st)) => {
+            let d = PdfObject::Dictionary(st.dict.clone());
+            format!("S {} {}|{}", canon_obj_str(&d), hex(st.raw_data()), token_stream(&mut lexer, 2))
+        }
+        Ok(o) => format!("O {}|{}", canon_obj_str(&o), token_stream(&mut lexer, 2)),
+        Err(e) => format!("{}|-", err_class(&e)),
+    }
+}
+
+fn image_doc(samples: &[u8], w: u32, modern: bool) -> Result<Vec<u8>, String> {
+    use oxidize_pdf::graphics::Image;
+    if w == 0 || samples.len() % (w as usize) != 0 {
+        return Err("bad-geometry".into());
+    }
+    let h = (samples.len() / w as usize) as u32;
+    let image = Image::from_gray_data(samples.to_vec(), w, h).map_err(|e| format!("image-rejected:{}", e))?;
+    let mut doc = Document::new();
+    let mut page = Page::a4();
+    page.add_image("Im1", image);
+    page.draw_image("Im1", 100.0, 100.0, 50.0, 50.0).map_err(|e| format!("draw:{}", e))?;
+    doc.add_page(page);
+    let cfg = if modern {
+        WriterConfig { use_xref_streams: true, use_object_streams: true, pdf_version: "1.5".into(), compress_streams: true, incremental_update: false }
+    } else {
+        WriterConfig { compress_streams: false, ..WriterConfig::default() }
+    };
+    doc.to_bytes_with_config(cfg).map_err(|e| format!("write-error:{}", e))
+}
+
+/// the bytes `<< … >>\nstream\n…\nendstream` of the image XObject, cut by the object's own /Length
+fn image_stream_body(pdf: &[u8]) -> Result<Vec<u8>, String> {
+    let mut from = 0;
+    while let Some(m) = find(pdf, b"/Subtype /Image", from) {
+        from = m + 1;
+        let Some(ostart) = rfind(&pdf[..m], b" obj\n<<") else { continue };
+        let dstart = ostart + 5;
+        let Some(srel) = find(&pdf[dstart..], b"\n>>\nstream\n", 0) else { continue };
+        let dict_end = dstart + srel + 3;
+        let dtxt = String::from_utf8_lossy(&pdf[dstart..dict_end]).to_string();
+        let Some(li) = dtxt.find("/Length ") else { continue };
+        let len: usize = match dtxt[li + 8..].split(|c: char| !c.is_ascii_digit()).next().and_then(|x| x.parse().ok()) {
+            Some(x) => x,
+            None => continue,
+        };
+        let data_start = dict_end + 8;
+        let end = data_start + len;
+        let tail: &[u8] = b"\nendstream\nendobj\n";
+        if end + tail.len() > pdf.len() || &pdf[end..end + tail.len()] != tail {
+            return Err("image-object-does-not-end-with-endstream-endobj".into());
+        }
+        return Ok(pdf[dstart..end + 10].to_vec());
+    }
+    Err("image-object-not-found".into())
+}
+
+fn reader_image_data(pdf: Vec<u8>) -> String {
+    use oxidize_pdf::parser::objects::PdfObject;
+    use oxidize_pdf::parser::PdfReader;
+    let mut reader = match PdfReader::new(Cursor::new(pdf)) {
+        Ok(r) => r,
+        Err(_) => return "reader-open-failed".into(),
+    };
+    let size = match reader.trailer().size() {
+        Ok(s) => s,
+        Err(_) => return "no-size".into(),
+    };
+    for num in 1..size {
+        let obj = match reader.get_object(num, 0) {
+            Ok(o) => o.clone(),
+            Err(_) => continue,
+        };
+        if let PdfObject::Stream(st) = obj {
+            let is_image = st.dict.get("Subtype").and_then(|o| o.as_name()).map(|n| n.as_str() == "Image").unwrap_or(false);
+            if is_image {
+                return hex(st.raw_data());
+            }
+        }
+    }
+    "image-not-found".into()
+}
+
 fn run(req: &str) -> String {
     let parts: Vec<&str> = req.split(' ').collect();
     match parts.first().copied() {
@@ -189,6 +284,25 @@ fn run(req: &str) -> String {
             Some(b) => parse_and_next(&b),
             None => "bad-request".into(),
         },
+        Some("stm") if parts.len() == 2 => match unhex(parts[1]) {
+            Some(b) => parse_stream_and_next(&b),
+            None => "bad-request".into(),
+        },
+        Some("img") if parts.len() == 4 => {
+            let (Ok(w), Some(samples)) = (parts[2].parse::<u32>(), unhex(parts[3])) else { return "bad-request".into() };
+            let pdf = match image_doc(&samples, w, parts[1] == "o") {
+                Ok(p) => p,
+                Err(e) => return format!("write-failed:{}", e),
+            };
+            match image_stream_body(&pdf) {
+                Err(e) => format!("cut-failed:{}", e),
+                Ok(body) => {
+                    let mut inp = body.clone();
+                    inp.extend_from_slice(b"\nendobj\n");
+                    format!("{}|{}|reader:{}", hex(&body), parse_stream_and_next(&inp), reader_image_data(pdf))
+                }
+            }
+        }
         Some("tok") if parts.len() == 2 => match unhex(parts[1]) {
             Some(b) => token_stream(&mut Lexer::new(Cursor::new(b)), 64),
             None => "bad-request".into(),
@@ -543,6 +657,73 @@ fn gen(rng: &mut Rng, tier: Tier) -> Vec<Case> {
         sanitize_numbers(&mut b);
         cases.push(Case::new(format!("tok {}", hex(&b)), "tok frag"));
         cases.push(Case::new(format!("lex {}", hex(&b)), "lex frag"));
+    }
+    // 7. stream objects: raw image payloads through the public API, boundary first/last bytes
+    let edges: &[&[u8]] = &[
+        b"\n", b"\r", b"\r\n", b"\n\n", b"\n\r", b" ", b"\x00", b"\t", b"\x0c", b"e", b"endstream", b"endobj", b"\nendstream",
+        b"\nendstream\nendobj\n", b"stream\n", b">>", b"%", b"x",
+    ];
+    let mut payloads: Vec<Vec<u8>> = vec![];
+    for a in edges {
+        payloads.push(a.to_vec());
+        for b in edges {
+            let mut v = a.to_vec();
+            v.extend_from_slice(b"012");
+            v.extend_from_slice(b);
+            payloads.push(v);
+        }
+    }
+    let n_img = if tier == Tier::Quick { 90 } else { payloads.len() };
+    // deterministic spread: always the LF / CR / CRLF first-byte cases, then a sample of the rest
+    let mut chosen: Vec<Vec<u8>> = payloads.iter().filter(|p| p.len() <= 2).cloned().collect();
+    while chosen.len() < n_img {
+        chosen.push(rng.pick(&payloads).clone());
+    }
+    for (i, p) in chosen.iter().enumerate() {
+        let mut p = p.clone();
+        if rng.chance(1, 4) {
+            let k = rng.below(6) as usize;
+            p.extend(rng.bytes(k));
+        }
+        let divs: Vec<usize> = (1..=p.len()).filter(|d| p.len() % d == 0).collect();
+        let w = *rng.pick(&divs);
+        // the object-stream configuration costs ~6 s per case in `PdfReader` (unoptimised build): a few only
+        let mode = if i % 30 == 29 { "o" } else { "d" };
+        cases.push(Case::new(format!("img {} {} {}", mode, w, hex(&p)), format!("img-{} nt", mode)));
+    }
+    // 8. hand-shaped stream objects through `PdfObject::parse`: every EOL variant after `stream`,
+    //    right / wrong / missing / odd /Length, payload edges, endstream variants
+    let eols: &[&[u8]] = &[b"\n", b"\r\n", b"\r", b" ", b"", b"\n\n", b"\r\r", b" \n", b"\t\n"];
+    let ends: &[&[u8]] = &[b"\nendstream", b"endstream", b"\r\nendstream", b"\rendstream", b" endstream", b"\nendstrea", b"\nendobj", b"", b"\n\nendstream", b"%c\nendstream"];
+    let n_stm = if tier == Tier::Quick { 260 } else { 2600 };
+    for i in 0..n_stm {
+        let data: Vec<u8> = if i % 3 == 0 { rng.pick(&payloads).clone() } else { let k = rng.below(5) as usize; let mut v = rng.pick(edges).to_vec(); v.extend(rng.bytes(k)); if rng.chance(1,3) { v.clear(); } v };
+        let len: i64 = match rng.below(12) {
+            0 => data.len() as i64 + 1,
+            1 => data.len() as i64 - 1,
+            2 => -2,
+            3 => 0,
+            _ => data.len() as i64,
+        };
+        // an explicit -1 is the code's private "missing length" marker (endstream search): not modelled
+        let len = if len == -1 { -2 } else { len };
+        let len_txt = match rng.below(14) {
+            0 => String::new(),
+            1 => "/Length 3 0 R".to_string(),
+            2 => "/Length /X".to_string(),
+            3 => format!("/Length 1 /Length {}", len),
+            4 => format!("/Length {}.0", len),
+            _ => format!("/Length {}", len),
+        };
+        let extra = *rng.pick(&["", "/Type /XObject ", "/A [1 2] ", "/K (s) ", "%c\n"]);
+        let mut b = format!("<< {}{} >>", extra, len_txt).into_bytes();
+        b.extend_from_slice(*rng.pick(&[&b"\n"[..], b" ", b"", b"%c\n", b"\r\n"]));
+        b.extend_from_slice(b"stream");
+        b.extend_from_slice(if rng.chance(3, 5) { b"\n" } else { *rng.pick(eols) });
+        b.extend_from_slice(&data);
+        b.extend_from_slice(if rng.chance(3, 5) { b"\nendstream" } else { *rng.pick(ends) });
+        b.extend_from_slice(*rng.pick(&[&b"\nendobj\n"[..], b"", b" 1", b"\n"]));
+        cases.push(Case::new(format!("stm {}", hex(&b)), "stm nt"));
     }
     cases
 }
